@@ -201,7 +201,10 @@ def setup_profile():
     while True:
         rt = input("(currently '{}'): ".format(pf["range_type"]))
         if rt:
-            if rt not in ["absolute", "relative"]:
+            if rt == "relative":
+                # the fitter calls this range type "relative cp"
+                rt = "relative cp"
+            if rt not in ["absolute", "relative cp"]:
                 print("Please choose 'absolute' or 'relative'.")
                 continue
             pf["range_type"] = rt
@@ -213,7 +216,7 @@ def setup_profile():
     if left:
         ival[0] = float(left)
     right = input("right [µm] (currently '{}'): ".format(ival[1]))
-    if left:
+    if right:
         ival[1] = float(right)
     pf["range_x"] = list(ival*1e-6)
 
